@@ -550,6 +550,36 @@ func (c *HAConfig) pathIDKeys(s *HASection) map[string]string {
 }
 
 var reAuthName = regexp.MustCompile(`_auth_[0-9]+`)
+var reAuthBackend = regexp.MustCompile(`^_auth_backend[0-9]+_[0-9]+$`)
+
+// authBackendNames: _auth_backendNNN_<port> carries a sequence number given in
+// acquisition order; the name is replaced by what identifies the backend: its
+// servers and the Host header it sets.
+func (c *HAConfig) authBackendNames() map[string]string {
+	out := map[string]string{}
+	for name, be := range c.Backends {
+		if !reAuthBackend.MatchString(name) {
+			continue
+		}
+		var ids []string
+		for _, sv := range be.Servers {
+			if !sv.IsEmptySlot() {
+				ids = append(ids, fmt.Sprintf("%s:%d", sv.Addr, sv.Port))
+			}
+		}
+		sort.Strings(ids)
+		host := ""
+		if be.Section != nil {
+			for _, l := range be.Section.Lines {
+				if len(l.Tok) >= 4 && l.Tok[0] == "http-request" && l.Tok[1] == "set-header" && l.Tok[2] == "Host" {
+					host = l.Tok[3]
+				}
+			}
+		}
+		out[name] = "_auth_backend{" + strings.Join(ids, ",") + "|" + host + "}"
+	}
+	return out
+}
 
 // NormalForm computes NF. The rules (each is an assumption listed in the
 // evidence): file names disappear (content inlined); the file-system prefix is
@@ -563,6 +593,13 @@ func (c *HAConfig) NormalForm(opt *NFOptions) NF {
 	nf := NF{}
 	// auth proxy renaming: _auth_<port> -> _auth{<target>}
 	authName := map[string]string{}
+	authBack := c.authBackendNames()
+	renameBack := func(n string) string {
+		if an, ok := authBack[n]; ok {
+			return an
+		}
+		return n
+	}
 	if fs := c.authProxyFrontend(); fs != nil {
 		idToPort := map[string]string{}
 		var onlyPort string
@@ -585,7 +622,7 @@ func (c *HAConfig) NormalForm(opt *NFOptions) NF {
 						port = idToPort[l.Tok[i+1]]
 					}
 				}
-				authName["_auth_"+port] = "_auth{" + l.Tok[1] + "}"
+				authName["_auth_"+port] = "_auth{" + renameBack(l.Tok[1]) + "}"
 			}
 		}
 	}
@@ -598,6 +635,9 @@ func (c *HAConfig) NormalForm(opt *NFOptions) NF {
 			id = id + " (duplicate)"
 		}
 		if an, ok := authName[s.Name]; ok && s.Kind == "backend" {
+			id = "backend " + an
+		}
+		if an, ok := authBack[s.Name]; ok && s.Kind == "backend" && !strings.HasSuffix(id, "(duplicate)") {
 			id = "backend " + an
 		}
 		pathKeys := map[string]string{}
@@ -679,7 +719,7 @@ func (c *HAConfig) NormalForm(opt *NFOptions) NF {
 			case isAuthFront && t[0] == "bind":
 				lines = append(lines, "bind 127.0.0.1:<authport>")
 			case isAuthFront && t[0] == "use_backend":
-				lines = append(lines, "use_backend "+t[1]+" if <its auth port>")
+				lines = append(lines, "use_backend "+renameBack(t[1])+" if <its auth port>")
 			default:
 				lines = append(lines, c.normTokens(s, t, pathKeys, authName, opt))
 			}
